@@ -257,7 +257,10 @@ def reversible_fdtd(
         s_k, r_k = sr_tuple
         del r_k
         time_step = s_k[0]
-        return time_step >= start_time_step
+        # The carried state sits at ``time_step``; the next reverse step undoes forward step
+        # ``time_step - 1``. Stop once step 0 has been undone (a further step would replay the
+        # interface record at index -1 and add the VJP of a non-existent step -1).
+        return time_step > start_time_step
 
     def fdtd_bwd(
         residual,
